@@ -14,7 +14,7 @@ import (
 
 // C03 — key sequences run exactly the command they are bound to.
 
-const c03Rule = "bind tables of 1-12 sequences (length 1-4) over the alphabet {a b c [ 1 ESC C-a C-x M-a DEL}, built by construction to contain prefix chains (s, s.x, s.x.y), siblings and disjoint entries, each bound to a distinct probe command (Keymap.Register + Config.Bind) or, one in four, to a macro whose body is a string over the alphabet resolved through the same table (no self-reference, depth <= 2); the tested keymap's binds are REPLACED by the table; keymaps: emacs, vi-insert, vi-command as main, vi-opp and vi-visual as local (entered through a probe calling Keymap.SetLocal); convert-meta on/off; input = 1-12 keys biased to walk the table (full matches, proper prefixes then a ruling-out key, unbound keys), delivered one key per read (which times every invocation) and again in a single read; oracle = reference resolver (longest-match automaton, appendix A.1) whose emissions (probe, key index) must equal the probe log; where the statement is silent the model branches (ruling-out key dropped or re-dispatched) and any branch is accepted; ESC is left out of the alphabet in vi and local keymaps (lone ESC is decided by timing there); non-trivial = the table has a prefix overlap that the input exercises, or a macro is resolved; distinct = hash of the case"
+const c03Rule = "bind tables of 1-12 sequences (length 1-4) over the alphabet {a b c [ 1 ESC C-a C-x M-a DEL}, built by construction to contain prefix chains (s, s.x, s.x.y), siblings and disjoint entries, each bound to a distinct probe command (Keymap.Register + Config.Bind) or, one in four, to a macro whose body is a string over the alphabet resolved through the same table (no self-reference, depth <= 2); the tested keymap's binds are REPLACED by the table; keymaps: emacs, vi-insert, vi-command as main, vi-opp and vi-visual as local (entered through a probe calling Keymap.SetLocal), and emacs underneath an active local keymap whose only bind is ESC Q, Q not in the alphabet (every key must fall through to the main keymap's table); convert-meta on/off; input = 1-12 keys biased to walk the table (full matches, proper prefixes then a ruling-out key, unbound keys), delivered one key per read (which times every invocation) and again in a single read; oracle = reference resolver (longest-match automaton, appendix A.1) whose emissions (probe, key index) must equal the probe log; where the statement is silent the model branches (ruling-out key dropped or re-dispatched; keys of a failed sequence all given up, or only the first with the rest starting over) and any branch is accepted; ESC is left out of the alphabet in vi and local keymaps (lone ESC is decided by timing there); non-trivial = the table has a prefix overlap that the input exercises, or a macro is resolved; distinct = hash of the case"
 
 type C03Bind struct {
 	Seq   []string `json:"seq"`             // key names of the alphabet
@@ -48,7 +48,7 @@ func c03Key(name string, convert bool) (typed string, bound string) {
 }
 
 func c03Alphabet(keymap string) []string {
-	if keymap == "emacs" {
+	if keymap == "emacs" || keymap == "emacs+local" {
 		return []string{"a", "b", "c", "[", "1", "ESC", "C-a", "C-x", "M-a", "DEL"}
 	}
 
@@ -71,7 +71,7 @@ func c03Atoms(names []string) []string {
 }
 
 func genC03(t *rapid.T) *C03Case {
-	c := &C03Case{Keymap: rapid.SampledFrom([]string{"emacs", "emacs", "vi-insert", "vi-command", "vi-opp", "vi-visual"}).Draw(t, "keymap"),
+	c := &C03Case{Keymap: rapid.SampledFrom([]string{"emacs", "emacs", "emacs+local", "vi-insert", "vi-command", "vi-opp", "vi-visual"}).Draw(t, "keymap"),
 		Convert: rapid.Bool().Draw(t, "convert")}
 	alpha := c03Alphabet(c.Keymap)
 	key := rapid.SampledFrom(alpha)
@@ -336,6 +336,28 @@ func (m *c03Model) run(atoms []string) [][]c03Emit {
 					return
 				}
 
+				// nothing was remembered: the statement only says that nothing runs
+				// for these keys as a sequence. Branch delta: only the first key is
+				// given up and the ones after it start over (what the library does
+				// when a local keymap hands unmatched keys to the main one); the
+				// main line below: all of them are given up.
+				if len(s.pending) > 1 {
+					sd := s
+					sd.out = append([]c03Emit{}, s.out...)
+					q, qi := append([]string{}, s.pending[1:]...), append([]int{}, s.pidx[1:]...)
+
+					for i := range qi {
+						if qi[i] < ki {
+							qi[i] = ki
+						}
+					}
+
+					sd.queue = append(q, s.queue...)
+					sd.idx = append(qi, s.idx...)
+					sd.pending, sd.pidx = nil, nil
+					step(sd)
+				}
+
 				s.pending, s.pidx = nil, nil
 			}
 		}
@@ -354,9 +376,11 @@ func (c *C03Case) spec(mainKm string) (*proto.Spec, string) {
 	vars := [][2]string{{"convert-meta", map[bool]string{true: "on", false: "off"}[c.Convert]}}
 	mode := "emacs"
 
-	if c.Keymap != "emacs" {
+	if c.Keymap != "emacs" && c.Keymap != "emacs+local" {
 		mode = "vi"
 	}
+
+	bindKm := c.Keymap
 
 	spec := &proto.Spec{Calls: 1, Inputrc: renderVars(mode, vars), Prompt: &proto.PromptSpec{Primary: "> "}}
 	enter := ""
@@ -364,6 +388,17 @@ func (c *C03Case) spec(mainKm string) (*proto.Spec, string) {
 	switch c.Keymap {
 	case "emacs", "vi-insert":
 		spec.ClearKm = []string{c.Keymap}
+	case "emacs+local":
+		// the table is in emacs; an EMPTY local keymap is active on top of it, so
+		// every key falls through to the main keymap
+		bindKm = "emacs"
+		spec.Probes = append(spec.Probes, proto.ProbeSpec{Name: "enter", Kind: "setlocal:vi-opp"})
+		spec.ClearKm = []string{"emacs", "vi-opp"}
+		spec.Binds = append(spec.Binds, proto.BindSpec{Keymap: "emacs", Seq: "Z", Action: "enter"})
+		// (one bind, ESC Q, Q being outside the alphabet: a local keymap with no bind at all is not consulted, and the completion and search keymaps all have ESC-prefixed binds like this one)
+		spec.Probes = append(spec.Probes, proto.ProbeSpec{Name: "local-q", Kind: "log"})
+		spec.Binds = append(spec.Binds, proto.BindSpec{Keymap: "vi-opp", Seq: "\x1bQ", Action: "local-q"})
+		enter = "Z"
 	case "vi-command":
 		spec.Probes = append(spec.Probes, proto.ProbeSpec{Name: "enter", Kind: "setmain:vi-command"})
 		spec.ClearKm = []string{"vi-command"}
@@ -395,13 +430,13 @@ func (c *C03Case) spec(mainKm string) (*proto.Spec, string) {
 
 			// a macro bind's action is its body in inputrc notation; the probe of a
 			// macro is observed through what its body triggers, plus a marker probe
-			spec.Binds = append(spec.Binds, proto.BindSpec{Keymap: c.Keymap, Seq: seq, Action: inputrcEscape(body), Macro: true})
+			spec.Binds = append(spec.Binds, proto.BindSpec{Keymap: bindKm, Seq: seq, Action: inputrcEscape(body), Macro: true})
 
 			continue
 		}
 
 		spec.Probes = append(spec.Probes, proto.ProbeSpec{Name: name, Kind: "log"})
-		spec.Binds = append(spec.Binds, proto.BindSpec{Keymap: c.Keymap, Seq: seq, Action: name})
+		spec.Binds = append(spec.Binds, proto.BindSpec{Keymap: bindKm, Seq: seq, Action: name})
 	}
 
 	return spec, enter
